@@ -188,6 +188,9 @@ class WriteMultipleCoilsRequest(ModbusRequest):
         self.address, count, self.byte_count = struct.unpack('>HHB', data[0:5])
         values = unpack_bitstring(data[5:])
         self.values = values[:count]
+        # remember the quantity of outputs field: fewer data bits than it
+        # announces is rejected in execute()
+        self.count = count
 
     def execute(self, context):
         ''' Run a write coils request against a datastore
@@ -199,6 +202,8 @@ class WriteMultipleCoilsRequest(ModbusRequest):
         if not (1 <= count <= 0x07b0):
             return self.doException(merror.IllegalValue)
         if (self.byte_count != (count + 7) // 8):
+            return self.doException(merror.IllegalValue)
+        if getattr(self, 'count', count) != count:
             return self.doException(merror.IllegalValue)
         if not context.validate(self.function_code, self.address, count):
             return self.doException(merror.IllegalAddress)
